@@ -59,6 +59,8 @@ class Universe:
         return self.wlab.get(id(w), '?wbs')
 
     def T(self, lab):
+        if lab == '#junk':
+            return 5          # something that is not a task (a task id instead of the task, typically)
         return None if lab is None else self.obj[lab]
 
     def TS(self, labs):
@@ -80,7 +82,8 @@ def public_fields(t, extra=()):
     return tuple(out)
 
 
-CUSTOM_NAMES = ('prio', 'extra', 'title', 'x', 'tag', 'flag', 'note', 'iteration', 'region', 'kpi_', 'team', 'stamp', 'owner')
+CUSTOM_NAMES = ('prio', 'extra', 'title', 'x', 'tag', 'flag', 'note', 'iteration', 'region', 'kpi_', 'team', 'stamp', 'owner',
+                'cost center', '2nd reviewer')
 
 
 def _attrs(o):
@@ -459,7 +462,7 @@ def expected(s0, op):
         _, holder, i, x = op
         holder = tuple(holder)
         cur = _hl(s, holder)
-        if x in cur or not isinstance(i, int) or not (0 <= i <= len(cur)):
+        if x in cur or type(i) is not int or not (0 <= i <= len(cur)):      # (True/False as a position: unspecified)
             return None, ANY
         m_attach_last(s, x, holder)
         cur = _hl(s, holder)
@@ -497,7 +500,24 @@ def expected(s0, op):
         if isinstance(key, str):
             kf = lambda lab: attr(lab, key)  # noqa: E731
         else:
+            # "orders the children by the attribute": for a list of attributes the statement does not say how the values are
+            # combined -- the joined text (what the pinned code does) and the tuple of values are both admissible readings
             kf = lambda lab: '-'.join(str(attr(lab, k_)) for k_ in key)  # noqa: E731
+            for k_ in key:
+                vals = [attr(lab, k_) for lab in cur]
+                if any(v is None for v in vals) or len({type(v) for v in vals} - {int, float}) > 1 or \
+                        ({type(v) for v in vals} & {int, float} and {type(v) for v in vals} - {int, float}):
+                    # where a listed attribute is missing on some task, or its values do not compare, the order is open
+                    # (missing first? compared as text?): only "a permutation, nothing else touched" is judged (mon_graph)
+                    return None, ('permutation', list(holder))
+            try:
+                alt = copy.deepcopy(s)
+                cur2 = _hl(alt, holder)
+                cur2[:] = sorted(cur2, key=lambda lab: tuple(attr(lab, k_) for k_ in key), reverse=rev)
+            except TypeError:
+                alt = None
+            cur[:] = sorted(cur, key=kf, reverse=rev)
+            return ([s] if alt is None or alt == s else [s, alt]), ANY
         cur[:] = sorted(cur, key=kf, reverse=rev)
         return [s], ANY
     if k == 'reorder':
@@ -507,7 +527,9 @@ def expected(s0, op):
         rest = list(cur)
         first = []
         if len(set(map(repr, ids))) != len(ids):
-            return None, ANY
+            # an id named twice: whether that is refused or read as named once is open, but a call that returns has reordered
+            # the list (a permutation of the same children) and touched nothing else
+            return None, ('permutation', list(holder))
         for i_ in ids:
             m = [c for c in rest if s['T'][c]['id'] == i_]
             if len(m) != 1:
